@@ -92,6 +92,64 @@ sc('scan_block_scalar_breaks', props=['C03', 'C20'], params={'indent': 'int'}, r
    invariants={0: _SKIP_INV, 1: _SKIP_INV + ["typeis(chunks, 'list')"], 2: _SKIP_INV + ["typeis(chunks, 'list')", "self.index >= before_loop(self.index)"]},
    variants={0: "len(S(self)) - self.index", 1: "len(S(self)) - self.index", 2: "len(S(self)) - self.index"}, modifies=MODF)
 
+# ---- quoted scalars: white space and line folding between the text runs (C12: a document marker inside a quoted scalar is an error, it
+#      never becomes content; C03: only ScannerError; C20: a character per iteration)
+sc('scan_flow_scalar_breaks', props=['C03', 'C12', 'C20'], params={'double': 'bool'}, result='list',
+   ensures=["self.index >= old(self.index)", "typeis(result, 'list')"], labels={0: 'only-moves-forward', 1: 'a-list-of-chunks'},
+   invariants={0: _SKIP_INV + ["typeis(chunks, 'list')"], 1: _SKIP_INV + ["typeis(chunks, 'list')", "self.index >= before_loop(self.index)"]},
+   variants={0: "len(S(self)) - self.index", 1: "len(S(self)) - self.index"}, modifies=MODF)
+sc('scan_flow_scalar_spaces', props=['C03', 'C20'], params={'double': 'bool'}, result='list',
+   ensures=["self.index >= old(self.index)", "typeis(result, 'list')"], labels={0: 'only-moves-forward', 1: 'a-list-of-chunks'},
+   invariants={0: [inv_reader, POS_SAME, "length >= 0 and self.index + length < len(S(self))",
+                   "forall(j, 0, length, S(self)[self.index + j] in ' \\t')"]},
+   variants={0: "len(S(self)) - self.index - length"}, modifies=MODF)
+
+# ---- a whole directive line: the token a %YAML line produces carries the pair of numbers the parser unpacks (process_directives);
+#      C09: the marks are ordered and the token starts where the scanner stood
+sc('scan_directive', props=['C03', 'C09', 'C20'], requires=[NOT_AT_END], result='obj:yaml.tokens.DirectiveToken',
+   ensures=["self.index > old(self.index)",
+            "result.name == 'YAML' ==> (typeis(result.value, 'tuple') and len(result.value) == 2 and typeis(result.value[0], 'int') and typeis(result.value[1], 'int'))",
+            "result.name == 'TAG' ==> (typeis(result.value, 'tuple') and len(result.value) == 2 and typeis(result.value[0], 'str') and typeis(result.value[1], 'str'))",
+            "result.start_mark.index == old(self.index) and result.start_mark.index <= result.end_mark.index and result.end_mark.index <= self.index"],
+   labels={0: 'moves-forward', 1: 'yaml-directive-carries-two-numbers', 2: 'tag-directive-carries-handle-and-prefix', 3: 'marks-ordered-and-inside-what-was-consumed'},
+   invariants={0: _SKIP_INV + ["typeis(name, 'str') and value is None", "exact(start_mark, 'yaml.error.Mark') and exact(end_mark, 'yaml.error.Mark')",
+                               "start_mark.index == old(self.index) and start_mark.index < end_mark.index and end_mark.index <= self.index"]},
+   variants={0: "len(S(self)) - self.index"}, modifies=MODF)
+
+# ---- directive name and %YAML value
+_NAME_INV = [inv_reader, POS_SAME, "length >= 0 and self.index + length < len(S(self))", "ch == S(self)[self.index + length]",
+             "forall(j, 0, length, S(self)[self.index + j] not in '\\0')"]
+sc('scan_directive_name', props=['C03', 'C20'], result='str',
+   ensures=["self.index > old(self.index)", "S(self)[self.index] in %s" % "'\\0 \\r\\n\\x85\\u2028\\u2029'"],
+   labels={0: 'at-least-one-character-consumed', 1: 'stops-before-space-or-break'},
+   invariants={0: _NAME_INV}, variants={0: "len(S(self)) - self.index - length"}, modifies=MODF)
+sc('scan_yaml_directive_value', props=['C03', 'C20'], result='tuple',
+   ensures=["len(result) == 2 and typeis(result[0], 'int') and typeis(result[1], 'int')", "self.index > old(self.index)",
+            "S(self)[self.index] in %s" % "'\\0 \\r\\n\\x85\\u2028\\u2029'"],
+   labels={0: 'a-pair-of-numbers', 1: 'moves-forward', 2: 'stops-before-space-or-break'},
+   invariants={0: _SKIP_INV}, variants={0: "len(S(self)) - self.index"}, modifies=MODF)
+
+# ---- tag handles and tag URIs (directives and node tags)
+sc('scan_tag_handle', props=['C03', 'C20'], params={'name': 'str'}, result='str',
+   ensures=["self.index > old(self.index)", "len(result) >= 1"], labels={0: 'at-least-one-character-consumed', 1: 'non-empty-handle'},
+   invariants={0: [inv_reader, POS_SAME, "length >= 1 and self.index + length < len(S(self))", "ch == S(self)[self.index + length]",
+                   "forall(j, 0, length, S(self)[self.index + j] not in '\\0')"]},
+   variants={0: "len(S(self)) - self.index - length"}, modifies=MODF)
+sc('scan_tag_uri', props=['C03'], params={'name': 'str'}, result='str',
+   ensures=["self.index >= old(self.index)"], labels={0: 'only-moves-forward'},
+   invariants={0: [inv_reader, "self.index >= old(self.index)", "length >= 0 and self.index + length < len(S(self))", "ch == S(self)[self.index + length]",
+                   "forall(j, 0, length, S(self)[self.index + j] not in '\\0')", "typeis(chunks, 'list')",
+                   "forall(j, 0, len(chunks), typeis(chunks[j], 'str'))"]},
+   modifies=MODF)
+sc('scan_tag_directive_handle', props=['C03'], result='str', ensures=["self.index > old(self.index)", "S(self)[self.index] == ' '"],
+   labels={0: 'moves-forward', 1: 'followed-by-a-space'}, modifies=MODF)
+sc('scan_tag_directive_prefix', props=['C03'], result='str', ensures=["self.index >= old(self.index)", "S(self)[self.index] in %s" % "'\\0 \\r\\n\\x85\\u2028\\u2029'"],
+   labels={0: 'only-moves-forward', 1: 'stops-before-space-or-break'}, modifies=MODF)
+sc('scan_tag_directive_value', props=['C03', 'C20'], result='tuple',
+   ensures=["len(result) == 2 and typeis(result[0], 'str') and typeis(result[1], 'str')", "self.index > old(self.index)"],
+   labels={0: 'a-pair-of-texts', 1: 'moves-forward'},
+   invariants={0: _SKIP_INV, 1: _SKIP_INV + ["typeis(handle, 'str')", "self.index > old(self.index)"]}, variants={0: "len(S(self)) - self.index", 1: "len(S(self)) - self.index"}, modifies=MODF)
+
 # ---- %YAML version number: digits only
 sc('scan_yaml_directive_number', result='int',
    ensures=["self.index > old(self.index)"], labels={0: 'at-least-one-digit-consumed'},
